@@ -45,6 +45,7 @@ JudgeGob(e) ==
     ELSE IF e.dec4_err # "" \/ e.nodes4 # e.nodes1 THEN "decoding into a Dawg that already held another automaton does not replace its contents"
     ELSE IF e.nwords2 # Len(acc) THEN "decoded NumberOfWords differs"
     ELSE IF ~e.same_bytes THEN "encoding the decoded automaton gives different bytes"
+    ELSE IF ~e.b1_stable THEN "the bytes returned by GobEncode changed when other automata were encoded afterwards (the result shares memory with later calls)"
     ELSE IF \E k \in 1..Len(e.lookups2) : LET q == e.lookups2[k]  i == IndexOf(q.w) IN (q.ok # (i # 0)) \/ (q.ok /\ q.id # i - 1)
          THEN "Lookup on the decoded automaton is wrong"
     ELSE IF e.b1 = <<>> THEN ""      \* stream too long to ship; only the round trip was judged
